@@ -139,6 +139,9 @@ def fd_steps():
                     if kind == "equipment" and R.parse(new13[0]["body"])[0][0] != "L" or (kind == "equipment" and len(R.parse(new13[0]["body"])[0][1]) != 2):
                         fails.add("s1f13-body", dict(w, body=new13[0]["body"].hex()), "equipment S1F13 must carry [MDLN, SOFTREV]")
                 # clause 4
+                if ev == "link-lost" and state in ("WAIT_CRA", "WAIT_DELAY") and now != "NOT_COMMUNICATING":
+                    fails.add("link-loss-ends-the-attempts", dict(w, now=now), "attempts are retried 'for as long as the link stays up': after the link was lost during an "
+                              "attempt (WAIT_CRA / WAIT_DELAY) the handler must be NOT_COMMUNICATING, so that the next link starts a new exchange (D43)")
                 if ev in ("link-lost", "disable") and now == "COMMUNICATING":
                     fails.add("link-loss-or-disable-leaves-communicating", dict(w, now=now), "still COMMUNICATING after the link was lost / the handler was disabled")
                 # clause 5
@@ -157,7 +160,7 @@ def fd_steps():
     by = {}
     for f in fails:
         by.setdefault(f["obligation"], f)
-    names = ["communicating-only-after-commack-0", "commack-0-establishes", "refused-or-unanswered-goes-to-wait-delay", "delay-timer-armed", "retry-after-delay",
+    names = ["link-loss-ends-the-attempts", "communicating-only-after-commack-0", "commack-0-establishes", "refused-or-unanswered-goes-to-wait-delay", "delay-timer-armed", "retry-after-delay",
              "reply-timer-armed", "only-the-current-states-timer-runs", "selected-link-starts-attempt", "s1f13-body", "link-loss-or-disable-leaves-communicating", "no-callbacks-unless-communicating",
              "callbacks-when-communicating", "s1f13-answered-once", "setup"]
     obs = [{"name": n, "ok": n not in by, "witness": by[n]["witness"] if n in by else None, "detail": by[n]["detail"] if n in by else ""} for n in names]
